@@ -100,6 +100,15 @@ class Host:
         self.sub_steps = 0
         self.cut_fired = False
         self.tm_env = None
+        self._inotifies = []
+
+    def close_inotifies(self):
+        for ino in self._inotifies:
+            try:
+                ino.close()
+            except OSError:
+                pass
+        self._inotifies = []
 
     # ------------------------------------------------------------------ setup
     def install(self):
@@ -177,19 +186,31 @@ class Host:
             wrapper.__name__ = attr
             rebind(cls, attr, wrapper)
 
+        # ResourceServiceClient.wait() without a timeout builds a DirWatcher whose inotify
+        # instance is never closed (in production the process execs right after); only 128
+        # instances exist per user, so the harness closes them once the call has returned.
+        from treadmill.syscall import inotify
+        orig_inotify_init = inotify.Inotify.__init__
+        host_ = self
+
+        def inotify_init(self_, *a, **kw):
+            orig_inotify_init(self_, *a, **kw)
+            host_._inotifies.append(self_)
+        rebind(inotify.Inotify, '__init__', inotify_init)
+
         for attr in ('create_rule', 'unlink_rule'):
             observed(rulefile.RuleMgr, attr)
         for attr in ('create_spec', 'unlink_spec', 'unlink_all'):
             observed(endpoints.EndpointsMgr, attr)
 
-        self._saved.append((context.GLOBAL, 'cell', context.GLOBAL.cell))
         context.GLOBAL.cell = 'vfcell'
         context.GLOBAL.zk.url = 'zookeeper://vf@zk.invalid:2181/treadmill/vfcell'
         self._installed = True
 
         self.tm_env = appenv.AppEnvironment(self.root)
-        for d in (self.tm_env.apps_dir, self.tm_env.rules_dir, self.tm_env.archives_dir,
-                  os.path.join(self.tm_env.metrics_dir, 'apps'), self.tm_env.app_events_dir,
+        # (no archives/ and metrics/ directories: finish tolerates their absence, and every file
+        # costs ~1 ms on this sandbox's /tmp)
+        for d in (self.tm_env.apps_dir, self.tm_env.rules_dir,
                   os.path.join(self.tm_env.svc_network_dir, 'resources')):
             os.makedirs(d, exist_ok=True)
         # the host's IP sets, created the way node initialisation creates them
@@ -205,6 +226,7 @@ class Host:
                 pass
         self._saved = []
         self._installed = False
+        self.close_inotifies()
         shutil.rmtree(self.root, ignore_errors=True)
 
     # ------------------------------------------------------------------- cuts
@@ -335,6 +357,7 @@ class Host:
             network_client.put(unique_name, {'environment': manifest['environment']})
             self.serve_network()
             app_network = network_client.wait(unique_name)
+            self.close_inotifies()
             c.vip = app_network['vip']
         else:
             # run() would wait for a reply nobody writes; the harness supplies the host's own address
